@@ -577,7 +577,7 @@ func passBGenspec(rng *rand.Rand, held []placement) {
 		C.Inconclusive("no generate-spec atom held in pass A")
 		return
 	}
-	n := C.Pick(60, 400)
+	n := C.Pick(40, 400)
 	cases := make([]caseT, n)
 	for k := range cases {
 		cs := caseT{Family: "genspec", Name: fmt.Sprintf("Bg%04d", k)}
